@@ -6,7 +6,7 @@
 From Coq Require Import List Bool Arith ZArith Lia.
 Require Import HT TEL LTLUnique BodyTheoryCore GenPrelude TheoryPrelude FromTheory Leaf_theory FullOps.
 Require BodyTheoryFull.
-Require Import FormPrelude FromBodyForm BodyForm TheoryBuild TheoryLink.
+Require Import FormPrelude FromBodyForm BodyForm TheoryBuild TheoryLink Leaf_dynamic.
 
 (* In every state reachable with an empty work list, for every assignment v of the auxiliary atoms that violates no
    emitted constraint and gives unresolved placeholders their external value, the literal cached for formula f at
@@ -51,16 +51,18 @@ Theorem C03_full_translate_keeps_invariant : forall (A : Type) (A_eq_dec : foral
   F.Inv A A_eq_dec h todo s -> k <= h -> F.translate A A_eq_dec fuel h f k s = Some (l, s') ->
   F.Inv A A_eq_dec h todo s' /\ F.ext A A_eq_dec s s' /\ F.cached A A_eq_dec s' f k l.
 Proof. exact (fun A D => F.translate_inv A D boolean_clauses_spec tel_clauses_spec make_equal_spec). Qed.
+(* (F.Wf: every formula in the cache or on the pending list is in the documented normal form - iteration only over step-consuming paths; it is
+   kept by Theory.translate when the new roots are in normal form, C05_normal_form_is_kept, and holds trivially for &tel formulas) *)
 Theorem C03_full_value_is_LTLf : forall (A : Type) (A_eq_dec : forall a b : A, {a = b} + {a <> b}) (h : nat) (s : F.st A),
-  F.Inv A A_eq_dec h nil s -> forall (T : F.trace A) (v : nat -> bool), F.ok_cls A T v s -> F.ok_ext A A_eq_dec v s ->
+  F.Inv A A_eq_dec h nil s -> F.Wf A A_eq_dec s -> forall (T : F.trace A) (v : nat -> bool), F.ok_cls A T v s -> F.ok_ext A A_eq_dec v s ->
   forall (f : F.bf A) (k : nat) (l : F.lit A), F.cached A A_eq_dec s f k l -> F.ev A T v l = F.lsat A h T f k.
-Proof. exact F.value_full. Qed.
+Proof. exact (fun A D => F.value_full A D (reduce_eqs_hold A)). Qed.
 Theorem C03_full_step : forall (A : Type) (A_eq_dec : forall a b : A, {a = b} + {a <> b}) (fuel h : nat) (s : F.st A)
   (roots : list (nat * F.bf A)) (s' : F.st A) (T : F.trace A) (v : nat -> bool),
-  F.Inv A A_eq_dec h nil s -> (forall p, In p (F.pending A s) -> fst p <= S h) -> (forall p, In p roots -> fst p <= S h) ->
+  F.Inv A A_eq_dec h nil s -> F.Wf A A_eq_dec s -> (forall p, In p (F.pending A s) -> fst p <= S h) -> (forall p, In p roots -> fst p <= S h /\ F.wfb A (snd p) = true) ->
   F.theory_translate A A_eq_dec fuel (S h) roots s = Some s' -> F.ok_cls A T v s' -> F.ok_ext A A_eq_dec v s' ->
   forall (f : F.bf A) (k : nat) (l : F.lit A), F.cached A A_eq_dec s' f k l -> F.ev A T v l = F.lsat A (S h) T f k.
-Proof. exact (fun A D => F.incremental_full A D boolean_clauses_spec tel_clauses_spec make_equal_spec). Qed.
+Proof. exact (fun A D => F.incremental_full A D boolean_clauses_spec tel_clauses_spec make_equal_spec (reduce_eqs_hold A)). Qed.
 Theorem C03_full_first_horizon : forall (A : Type) (A_eq_dec : forall a b : A, {a = b} + {a <> b}) (fuel : nat) (roots : list (nat * F.bf A)) (s' : F.st A),
   (forall p, In p roots -> fst p <= 0) -> F.run_list A A_eq_dec fuel 0 roots (F.init A) = Some s' -> F.Inv A A_eq_dec 0 nil s'.
 Proof. exact (fun A D => F.first_horizon_inv A D boolean_clauses_spec tel_clauses_spec make_equal_spec). Qed.
@@ -70,20 +72,28 @@ Proof. exact (fun A D => F.first_horizon_inv A D boolean_clauses_spec tel_clause
    assignment coincides with it on all allocated atoms, and every cached literal has the LTLf value of its formula *)
 Theorem C03_full_definitional : forall (A : Type) (A_eq_dec : forall a b : A, {a = b} + {a <> b}) (fuel h : nat) (s : F.st A)
   (roots : list (nat * F.bf A)) (s' : F.st A),
-  F.Inv A A_eq_dec h nil s -> F.Gw A A_eq_dec s -> (forall p, In p (F.pending A s) -> fst p <= S h) -> (forall p, In p roots -> fst p <= S h) ->
+  F.Inv A A_eq_dec h nil s -> F.Gw A A_eq_dec s -> F.Wf A A_eq_dec s -> (forall p, In p (F.pending A s) -> fst p <= S h) ->
+  (forall p, In p roots -> fst p <= S h /\ F.wfb A (snd p) = true) ->
   F.theory_translate A A_eq_dec fuel (S h) roots s = Some s' ->
-  F.Inv A A_eq_dec (S h) nil s' /\ F.Gw A A_eq_dec s' /\
+  F.Inv A A_eq_dec (S h) nil s' /\ F.Gw A A_eq_dec s' /\ F.Wf A A_eq_dec s' /\
   forall T : F.trace A,
     (F.ok_cls A T (F.vstar A (S h) T s') s' /\ F.ok_ext A A_eq_dec (F.vstar A (S h) T s') s') /\
     forall v : nat -> bool, F.ok_cls A T v s' -> F.ok_ext A A_eq_dec v s' ->
       (forall z, 0 < z < F.nxt A s' -> v z = F.vstar A (S h) T s' z) /\
       (forall f k l, F.cached A A_eq_dec s' f k l -> F.ev A T v l = F.lsat A (S h) T f k).
-Proof. exact (fun A D => F.definitional_extension_full A D boolean_clauses_spec tel_clauses_spec make_equal_spec). Qed.
-Theorem C03_full_initial_state : forall (A : Type) (A_eq_dec : forall a b : A, {a = b} + {a <> b}) (h : nat), F.Inv A A_eq_dec h nil (F.init A) /\ F.Gw A A_eq_dec (F.init A).
-Proof. intros A D h. split; [apply F.Inv_init|apply F.Gw_init]. Qed.
+Proof. exact (fun A D => F.definitional_extension_full A D boolean_clauses_spec tel_clauses_spec make_equal_spec (reduce_eqs_hold A)). Qed.
+Theorem C03_full_initial_state : forall (A : Type) (A_eq_dec : forall a b : A, {a = b} + {a <> b}) (h : nat),
+  F.Inv A A_eq_dec h nil (F.init A) /\ F.Gw A A_eq_dec (F.init A) /\ F.Wf A A_eq_dec (F.init A).
+Proof. intros A D h. split; [apply F.Inv_init|split; [apply F.Gw_init|apply F.Wf_init]]. Qed.
+(* formulas without dynamic operators are in normal form *)
+Theorem C03_tel_formulas_are_in_normal_form : forall (A : Type) (f : F.bf A), tel_only A f = true -> F.wfb A f = true.
+Proof.
+  intros A. induction f as [a|b|x IH|op x IHx y IHy|n w x IH|x IH|n w x IH|u l IHl r IHr|u r IHr|u l IHl r IHr|u r IHr|p g IHg|p g IHg]; cbn [tel_only F.wfb]; intros To; try discriminate; try reflexivity;
+    try (apply andb_true_iff in To as [T1 T2]); auto; try (rewrite IHx, IHy by assumption; reflexivity); rewrite IHl, IHr by assumption; reflexivity.
+Qed.
 
 (* the LTLf semantics of the model's formula objects is the semantics of the specification (what the extracted oracle evaluates) *)
-Theorem C03_model_semantics_is_the_specification : forall (A : Type) (h : nat) (T : TEL.trace A) (f : F.bf A) (k : nat),
+Theorem C03_model_semantics_is_the_specification : forall (A : Type) (h : nat) (T : TEL.trace A) (f : F.bf A), tel_only A f = true -> forall (k : nat),
   F.lsat A h T f k = TEL.lsat A h T (embf A f) k.
 Proof. exact lsat_embf. Qed.
 (* an object built for a table entry of create_formula (regenerated) has the value semantics of Model/BodyForm.v, which is the documented
@@ -162,5 +172,6 @@ Print Assumptions C03_full_step.
 Print Assumptions C03_full_first_horizon.
 Print Assumptions C03_full_definitional.
 Print Assumptions C03_full_initial_state.
+Print Assumptions C03_tel_formulas_are_in_normal_form.
 Print Assumptions C03_model_semantics_is_the_specification.
 Print Assumptions C03_built_objects_have_the_table_semantics.
